@@ -90,16 +90,17 @@ def _extend_args(args: list[str], flags: list[tuple[str, Any]]) -> list[str]:
 
 def _run_zerv_command(args: list[str], stdin: str | None = None) -> str:
     zerv_bin = find_zerv_bin()
+    # bytes in, bytes out: text=True would rewrite "\r" and "\r\n" in zerv's output to "\n"
     result = subprocess.run(
         [zerv_bin, *args],
-        input=stdin,
+        input=None if stdin is None else stdin.encode("utf-8"),
         capture_output=True,
-        text=True,
         check=False,
     )
     if result.returncode != 0:
-        raise RuntimeError(f"zerv command failed: {result.stderr}")
-    return result.stdout.strip()
+        stderr = result.stderr.decode("utf-8", errors="replace")
+        raise RuntimeError(f"zerv command failed: {stderr}")
+    return result.stdout.decode("utf-8").strip()
 
 
 def version(
